@@ -363,6 +363,16 @@ pub fn write_string(value: &[u8]) -> String {
     }
 }
 
+/// Writes a string literal that never spans multiple lines: the long bracket
+/// form is only used when the content has no line break.
+pub fn write_single_line_string(value: &[u8]) -> String {
+    if value.contains(&b'\n') {
+        write_quoted(value)
+    } else {
+        write_string(value)
+    }
+}
+
 pub fn write_interpolated_string_segment(segment: &StringSegment) -> String {
     let value = segment.get_value();
 
